@@ -111,6 +111,29 @@ def memo_findings(ctx, rule, message):
     return r
 
 
+def arg_findings(ctx, rule, message, where):
+    """OWN-ARG findings (an in-place write that may reach a caller-supplied tensor) in the files selected by
+    `where`, under another property's rule id."""
+    from ..report import Finding
+
+    dom, it, ents = ctx.shared(("own", EVAL_KINDS), lambda: analyse(ctx.p, EVAL_KINDS))
+    r = RuleResult(rule, message)
+    seen = set()
+    for f in dedupe(dom.findings):
+        if f.rule != "OWN-ARG" or not where(f.file):
+            continue
+        key = (f.file, f.qualname, f.construct)
+        if key in seen:
+            continue
+        seen.add(key)
+        g = Finding(rule, f.file, f.qualname, f.node, "%s: %s" % (f.message, message), witness=f.witness, construct=f.construct)
+        g.file = f.file
+        g.line = f.line
+        r.findings.append(g)
+    r.ok("%d evaluation entry points: no in-place write reaches a caller-supplied tensor in the selected files" % len(ents), nontrivial=False)
+    return r
+
+
 def c20_pure(ctx):
     return _results(ctx, ("util",), ["UT-PURE"], min_sites=2, min_entries=16)
 
